@@ -495,4 +495,183 @@ theorem nonNull_map (p : Nat) (kt vt : CqlTy) (kvs : List (GoVal × GoVal)) : No
   simp only [marshal, Bool.false_eq_true, if_false]
   exact wrapSeq_pairs_not_null p _ kvs kt vt
 
+/-! ## tuples bound to / decoded into a struct -/
+
+/-- the encoding is short enough for a 4-byte signed length -/
+def Small (p : Nat) (t : CqlTy) (g : GoVal) : Prop := ∀ b, marshal p t g = .ok (some b) → b.length < 2^31
+
+/-- unmarshalTuple decodes EVERY field into a fresh goType(elem) first, a null one as well: that must not fail -/
+def NullOK (p : Nat) (t : CqlTy) : Prop := ∃ v0, unmarshal p t (goTypeOf t) none = .ok v0
+
+/-- the fields of a struct bound to a tuple column, field by field: a field of type goType(elem) holding a value whose
+    round trip holds, or a field of type *goType(elem): nil, or pointing to such a value that is not written as null -/
+inductive FieldsRT (p : Nat) : List CqlTy → List GoTy → List GoVal → Prop
+  | nil : FieldsRT p [] [] []
+  | val {t ts gs v vs} : isBase (goTypeOf t) = true → v.isNilPtr = false → RT p t (goTypeOf t) v → Small p t v →
+      FieldsRT p ts gs vs → FieldsRT p (t :: ts) (goTypeOf t :: gs) (v :: vs)
+  | null {t ts gs vs} : NullOK p t → FieldsRT p ts gs vs → FieldsRT p (t :: ts) (.ptr (goTypeOf t) :: gs) (.nilptr :: vs)
+  | ptr {t ts gs v vs} : RT p t (goTypeOf t) v → NonNull p t v → Small p t v →
+      FieldsRT p ts gs vs → FieldsRT p (t :: ts) (.ptr (goTypeOf t) :: gs) (.ptr v :: vs)
+
+theorem FieldsRT_length {p : Nat} {ts : List CqlTy} {gs : List GoTy} {vs : List GoVal} (h : FieldsRT p ts gs vs) :
+    vs.length = ts.length ∧ gs.length = ts.length := by
+  induction h with
+  | nil => exact ⟨rfl, rfl⟩
+  | val _ _ _ _ _ ih => simp [ih.1, ih.2]
+  | null _ _ ih => simp [ih.1, ih.2]
+  | ptr _ _ _ _ ih => simp [ih.1, ih.2]
+
+theorem setSlot_val (t : CqlTy) (hb : isBase (goTypeOf t) = true) (item : Option Bytes) (v : GoVal) :
+    C12Frame.setSlot t (goTypeOf t) item v = .ok v := by
+  have hr : (goTypeOf t == goTypeOf t) = true := C12Frame.beqT_refl (goTypeOf t)
+  unfold C12Frame.setSlot
+  generalize hg : goTypeOf t = g at hb hr
+  cases g <;> simp_all [isBase]
+
+/-- marshalTuple's loop over struct fields against unmarshalTuple's loop -/
+theorem fields_back (p : Nat) : ∀ (ts : List CqlTy) (gs : List GoTy) (vs : List GoVal), FieldsRT p ts gs vs →
+    ∀ (body rest : Bytes), marshalTupleFields p ts vs = .ok (some body) →
+      unmarshalTupleSet p ts gs (body ++ rest) = .ok vs rest := by
+  intro ts gs vs h
+  induction h with
+  | nil =>
+    intro body rest hm
+    simp [marshalTupleFields] at hm
+    subst hm
+    simp [unmarshalTupleSet]
+  | @val t ts gs v vs hb hnp hrt hsm _ ih =>
+    intro body rest hm
+    rw [marshalTupleFields] at hm
+    simp only [hnp, Bool.false_eq_true, if_false] at hm
+    cases hv : marshal p t v with
+    | ok item =>
+      rw [hv] at hm; simp only at hm
+      cases hr : marshalTupleFields p ts vs with
+      | ok orest =>
+        cases orest with
+        | none => rw [hr] at hm; simp at hm
+        | some rest' =>
+          rw [hr] at hm; simp at hm; subst hm
+          have hrd := C12Frame.readBytesM_appendBytes item (rest' ++ rest)
+            (by intro b hb'; subst hb'; exact hsm b hv)
+          have hu := hrt item hv
+          rw [C12Frame.unmarshalTupleSet_cons]
+          simp only [List.append_assoc, C12Frame.appendBytes_length_ge, Bool.not_false, if_true, hrd]
+          have hf : C12Frame.setField p t (goTypeOf t) item = .ok v := by
+            unfold C12Frame.setField
+            rw [unmarshal_eta, hu]
+            exact setSlot_val t hb item v
+          simp only [hf, ih rest' rest hr]
+      | err => rw [hr] at hm; simp at hm
+      | crash => rw [hr] at hm; simp at hm
+      | unmodelled => rw [hr] at hm; simp at hm
+    | err => rw [hv] at hm; simp at hm
+    | crash => rw [hv] at hm; simp at hm
+    | unmodelled => rw [hv] at hm; simp at hm
+  | @null t ts gs vs hn _ ih =>
+    intro body rest hm
+    rw [marshalTupleFields] at hm
+    simp only [GoVal.isNilPtr, if_true] at hm
+    cases hr : marshalTupleFields p ts vs with
+    | ok orest =>
+      cases orest with
+      | none => rw [hr] at hm; simp at hm
+      | some rest' =>
+        rw [hr] at hm; simp at hm; subst hm
+        have hrd := C12Frame.readBytesM_appendBytes none (rest' ++ rest) (by intro b hb'; cases hb')
+        rw [C12Frame.unmarshalTupleSet_cons]
+        simp only [List.append_assoc, C12Frame.appendBytes_length_ge, Bool.not_false, if_true, hrd]
+        have hf : C12Frame.setField p t (.ptr (goTypeOf t)) none = .ok .nilptr := by
+          unfold C12Frame.setField
+          obtain ⟨v0, h0⟩ := hn
+          rw [unmarshal_eta, h0]
+          simp [C12Frame.setSlot_ptr]
+        simp only [hf, ih rest' rest hr]
+    | err => rw [hr] at hm; simp at hm
+    | crash => rw [hr] at hm; simp at hm
+    | unmodelled => rw [hr] at hm; simp at hm
+  | @ptr t ts gs v vs hrt hnn hsm _ ih =>
+    intro body rest hm
+    rw [marshalTupleFields] at hm
+    simp only [GoVal.isNilPtr, Bool.false_eq_true, if_false, marshal] at hm
+    cases hv : marshal p t v with
+    | ok item =>
+      cases item with
+      | none => exact absurd hv hnn
+      | some b =>
+        rw [hv] at hm; simp only at hm
+        cases hr : marshalTupleFields p ts vs with
+        | ok orest =>
+          cases orest with
+          | none => rw [hr] at hm; simp at hm
+          | some rest' =>
+            rw [hr] at hm; simp at hm; subst hm
+            have hrd := C12Frame.readBytesM_appendBytes (some b) (rest' ++ rest)
+              (by intro b' hb'; injection hb' with hb'; subst hb'; exact hsm b hv)
+            have hu := hrt (some b) hv
+            rw [C12Frame.unmarshalTupleSet_cons]
+            simp only [List.append_assoc, C12Frame.appendBytes_length_ge, Bool.not_false, if_true, hrd]
+            have hf : C12Frame.setField p t (.ptr (goTypeOf t)) (some b) = .ok (.ptr v) := by
+              unfold C12Frame.setField
+              rw [unmarshal_eta, hu]
+              simp [C12Frame.setSlot_ptr]
+            simp only [hf, ih rest' rest hr]
+        | err => rw [hr] at hm; simp at hm
+        | crash => rw [hr] at hm; simp at hm
+        | unmodelled => rw [hr] at hm; simp at hm
+    | err => rw [hv] at hm; simp at hm
+    | crash => rw [hv] at hm; simp at hm
+    | unmodelled => rw [hv] at hm; simp at hm
+
+theorem marshalTupleFields_not_null (p : Nat) : ∀ (ts : List CqlTy) (vs : List GoVal), marshalTupleFields p ts vs ≠ .ok none
+  | [], _ => by simp [marshalTupleFields]
+  | _ :: _, [] => by simp [marshalTupleFields]
+  | t :: ts, v :: vs => by
+    intro hm
+    have ih := marshalTupleFields_not_null p ts vs
+    rw [marshalTupleFields] at hm
+    split at hm
+    · split at hm
+      · cases hm
+      · rename_i hr _; exact ih (by rw [← hm])
+    · simp_all
+
+/-- tuple<T1, …, Tn> ↔ struct whose i-th field has type goType(Ti) or *goType(Ti): null (nil pointer), EMPTY and
+    values keep their meanings, every arity, every protocol version -/
+theorem rt_tuple_struct (p : Nat) (ts : List CqlTy) (gs : List GoTy) (vs : List GoVal) (h : FieldsRT p ts gs vs) :
+    RT p (.tuple ts) (.struct gs) (.struct vs) := by
+  intro ob hm
+  obtain ⟨hl1, hl2⟩ := FieldsRT_length h
+  simp only [marshal, hl1, ne_eq, not_true_eq_false, if_false, wrapTuple] at hm
+  rw [unmarshal_base _ _ _ rfl]
+  simp only [unmarshalBase, hl2, ne_eq, not_true_eq_false, if_false]
+  by_cases hts : ts = []
+  · subst hts
+    cases h
+    simp at hm
+    subst hm
+    simp [dataBytes, unmarshalTupleSet]
+  · simp only [hts, if_false] at hm
+    cases ob with
+    | none => exact absurd hm (marshalTupleFields_not_null p ts vs)
+    | some body =>
+      have := fields_back p ts gs vs h body [] hm
+      simp only [List.append_nil] at this
+      simp only [dataBytes, Option.getD, this]
+
+theorem nullOK_scalar (p : Nat) (t : CqlTy) (ht : CqlTy.isScalar t = true) : NullOK p t := by
+  unfold NullOK
+  cases t <;> simp [CqlTy.isScalar] at ht <;>
+    first
+      | exact ⟨_, rfl⟩
+      | (simp only [unmarshal, withPtr, goTypeOf, stripPtr]
+         rw [unmarshalBase_scalar _ _ _ _ rfl]
+         first
+           | (rw [us_uuid _ (Or.inl rfl)]; simp [dataBytes])
+           | (rw [us_uuid _ (Or.inr rfl)]; simp [dataBytes]))
+
+theorem nullOK_coll (p : Nat) (t : CqlTy) (ht : (∃ e, isListLike t e) ∨ (∃ k v, t = .map k v)) : NullOK p t := by
+  unfold NullOK
+  rcases ht with ⟨e, rfl | rfl⟩ | ⟨k, v, rfl⟩ <;> exact ⟨_, rfl⟩
+
 end C02Nested
